@@ -173,10 +173,16 @@ func runWsyncCase(rt Failer, c *wsyncCase, slicings [][2]uint64) bool {
 		if len(c.Old) > 0 && len(c.Old[0]) >= c.BS {
 			junk = append(append([]byte{}, c.Old[0][:len(c.Old[0])/c.BS*c.BS]...), c.New...)
 		}
+		var aerr error
 		Recover(func() {
-			ctx.ComputeDiff(&errAfterReader{data: junk, n: c.AbortFirst}, wsync.NewBlockLibrary(sig), func(op wsync.Operation) error { return nil }, -1)
+			aerr = ctx.ComputeDiff(&errAfterReader{data: junk, n: c.AbortFirst}, wsync.NewBlockLibrary(sig), func(op wsync.Operation) error { return nil }, -1)
 		})
 		Ev.Fault("diff_aborted_by_read_error_before_reuse", 1)
+		if aerr == nil {
+			// the source never reached its end: the ops emitted so far describe a prefix of unknown
+			// content, and the caller is told everything is fine
+			return Violation(rt, "C11/read-error-swallowed", "ComputeDiff returned nil although its source failed with a read error after %d bytes (the operations rebuild only a prefix)\ncase %v", c.AbortFirst, c.sample())
+		}
 	}
 	var first []RefOp
 	for si, sl := range slicings {
